@@ -79,6 +79,7 @@ type gen struct {
 	depthCap int
 	avoidA   bool // known finding A reproduces: no non-primitive computed keys in object literals
 	avoidB   bool // known finding B reproduces: no (+-1) ** (NaN | +-Infinity)
+	avoidH   bool // known finding H reproduces: no template literal as the direct right operand of +
 	tmp      int
 	loopVar  int
 	noF0     bool // inside f0's own body: no recursion
@@ -172,6 +173,9 @@ func (g *gen) expr(d int) string {
 			op = commonBinOps[g.r.Intn(len(commonBinOps))]
 		}
 		l, rr := g.expr(d-1), g.expr(d-1)
+		if g.avoidH && op == "+" && strings.HasPrefix(rr, "`") {
+			rr = g.leaf()
+		}
 		return fmt.Sprintf("(%s) %s (%s)", l, op, rr)
 	case 5, 6:
 		op := []string{"&&", "||", "??"}[g.r.Intn(3)]
@@ -238,7 +242,13 @@ func (g *gen) expr(d int) string {
 	case 21:
 		// same-branch shapes for MangleIfExpr
 		e1 := g.expr(d - 1)
-		switch g.r.Intn(5) {
+		switch g.r.Intn(8) {
+		case 5:
+			return fmt.Sprintf("(%s) ? (%s) : ((%s) ? (%s) : (%s))", g.expr(d-1), e1, g.expr(d-1), e1, g.expr(d-1))
+		case 6:
+			return fmt.Sprintf("(%s) ? (%s) : ((%s) && (%s))", g.expr(d-1), e1, g.expr(d-1), e1)
+		case 7:
+			return fmt.Sprintf("(%s) ? ((%s), (%s)) : (%s)", g.expr(d-1), g.expr(d-1), e1, e1)
 		case 0:
 			return fmt.Sprintf("(%s) ? (%s) : (%s)", g.expr(d-1), e1, e1)
 		case 1:
@@ -261,7 +271,11 @@ func (g *gen) expr(d int) string {
 	case 24:
 		return fmt.Sprintf("!((%s) %s (%s))", g.expr(d-1), []string{"==", "!=", "===", "!==", "<", ">=", ","}[g.r.Intn(7)], g.expr(d-1))
 	default:
-		return fmt.Sprintf("(%s) + \"\" + (%s)", g.expr(d-1), g.expr(d-1))
+		l, rr := g.expr(d-1), g.expr(d-1)
+		if g.avoidH && strings.HasPrefix(rr, "`") {
+			rr = g.leaf()
+		}
+		return fmt.Sprintf("(%s) + \"\" + (%s)", l, rr)
 	}
 }
 
@@ -300,6 +314,27 @@ func (s *sb) line(format string, a ...interface{}) {
 }
 
 func (g *gen) cond() string {
+	if g.r.Chance(22) {
+		// constant truthiness with side effects (mangleIf must keep the effects)
+		k := []string{"0", "1", "\"\"", "\"a\"", "null", "NaN", "[]", "-0", "0n", "void 0", "true", "false"}[g.r.Intn(12)]
+		p := fmt.Sprintf("$(%d, %s)", g.nextProbe(), g.lit())
+		switch g.r.Intn(7) {
+		case 0:
+			return fmt.Sprintf("(%s, %s)", p, k)
+		case 1:
+			return fmt.Sprintf("void %s", p)
+		case 2:
+			return fmt.Sprintf("!void %s", p)
+		case 3:
+			return fmt.Sprintf("%s && %s", p, []string{"0", "\"\"", "null", "false", "NaN"}[g.r.Intn(5)])
+		case 4:
+			return fmt.Sprintf("%s || %s", p, []string{"1", "\"a\"", "[]", "true", "{}"}[g.r.Intn(5)])
+		case 5:
+			return fmt.Sprintf("!(%s, %s)", p, k)
+		default:
+			return fmt.Sprintf("(%s, !%s)", p, k)
+		}
+	}
 	if g.r.Chance(30) {
 		return []string{"true", "false", "0", "1", "\"\"", "null", "!0", "!1", "NaN", "[]", "void 0", "-0", "0n", "\"0\"", "function(){}", "()=>{}", "/re/"}[g.r.Intn(17)]
 	}
@@ -334,6 +369,20 @@ func (g *gen) stmt(s *sb, o genOpts, d int, inLoop bool) {
 	case 0, 1, 2:
 		s.line("$(%d, %s);", g.nextProbe(), g.exprTop(3))
 	case 3, 4:
+		if g.r.Chance(50) {
+			// unused comparison / equality / template with a typed literal on one side
+			l := []string{"\"a\"", "1", "1n", "typeof a", "`t${a}`", "\"\"", "0", "null", "void 0", "true"}[g.r.Intn(10)]
+			rr := g.leaf()
+			if g.r.Chance(45) {
+				rr = "ob" // an object whose conversions are logged
+			}
+			op := []string{"<", ">", "<=", ">=", "==", "!=", "===", "!==", "+", "in"}[g.r.Intn(10)]
+			if g.r.Bool() {
+				l, rr = rr, l
+			}
+			s.line("(%s) %s (%s);", l, op, rr)
+			return
+		}
 		s.line("%s;", g.exprTop(3)) // unused expression statement
 	case 5:
 		s.line("%s %s (%s);", g.target(), assignOps[g.r.Intn(len(assignOps))], g.exprTop(2))
@@ -562,9 +611,9 @@ type program struct {
 
 // The same PRNG stream renders the program under the different option sets, so
 // that variants differ only in the option-dependent statements.
-func genProgram(seed uint64, o genOpts, avoidA, avoidB bool) string {
+func genProgram(seed uint64, o genOpts, avoidA, avoidB, avoidH bool) string {
 	r := NewRng(seed)
-	g := &gen{r: r, avoidA: avoidA, avoidB: avoidB}
+	g := &gen{r: r, avoidA: avoidA, avoidB: avoidB, avoidH: avoidH}
 	s := &sb{}
 	strict := r.Chance(25)
 	s.line("(function() {")
@@ -573,14 +622,14 @@ func genProgram(seed uint64, o genOpts, avoidA, avoidB bool) string {
 		s.line("\"use strict\";")
 	}
 	s.line("var a = %s, b = %s, c = %s;", g.lit(), g.lit(), g.primLit())
-	s.line("var nul = null, und;")
+	s.line("var nul = null, und, ob = $o(900, %s);", g.primLit())
 	s.line("const K1 = %s, K2 = %s;", g.primLit(), g.primLit())
 	s.line("var o = {x: %s, y: {z: %s}, w: %s};", g.lit(), g.lit(), g.primLit())
 	g.vars = []string{"a", "b", "c"}
 	g.consts = []string{"K1", "K2"}
 	// helper function with parameters
 	g.inFn = true
-	g.vars = []string{"a", "b", "c", "p", "q"}
+	g.vars = []string{"a", "b", "c", "p", "q", "ob"}
 	s.line("function f0(p, q) {")
 	s.ind += 2
 	g.noF0 = true
@@ -589,12 +638,183 @@ func genProgram(seed uint64, o genOpts, avoidA, avoidB bool) string {
 	g.noF0 = false
 	s.ind -= 2
 	s.line("}")
-	g.vars = []string{"a", "b", "c"}
+	g.vars = []string{"a", "b", "c", "ob"}
 	g.stmts(s, o, 3, false, r.Range(3, 8))
 	s.line("$(%d, [a, b, c, o.x, o.w]);", g.nextProbe())
 	s.ind -= 2
 	s.line("})();")
 	return s.String()
+}
+
+// top-level programs: unused expression statements and unused variable
+// initialisers at module scope, where bundling (tree shaking) removes whatever
+// ExprCanBeRemovedIfUnused / StmtsCanBeRemovedIfUnused accept
+func genTopLevel(seed uint64, avoidA, avoidB, avoidH bool) string {
+	r := NewRng(seed)
+	g := &gen{r: r, avoidA: avoidA, avoidB: avoidB, avoidH: avoidH, noF0: true}
+	s := &sb{}
+	s.line("var ob = $o(900, %s), a = %s, b = %s, c = $o(901, %s);", g.primLit(), g.lit(), g.lit(), g.primLit())
+	s.line("var o = {x: %s, y: {z: %s}, w: %s}, nul = null, und;", g.lit(), g.lit(), g.primLit())
+	s.line("const K1 = %s, K2 = %s;", g.primLit(), g.primLit())
+	g.vars = []string{"a", "b", "c", "ob"}
+	g.consts = []string{"K1", "K2"}
+	typed := []string{"\"a\"", "1", "1n", "typeof a", "`t${a}`", "\"\"", "0", "null", "void 0", "true", "-1", "`s`", "typeof undeclaredGlobal"}
+	ops := []string{"<", ">", "<=", ">=", "==", "!=", "===", "!==", "&&", "||", "??", ","}
+	n := r.Range(8, 16)
+	for i := 0; i < n; i++ {
+		l := typed[r.Intn(len(typed))]
+		rr := []string{"ob", "c", "a", "b", "K1", "nul", "und", "o", "undeclaredGlobal2"}[r.Intn(9)]
+		if r.Chance(30) {
+			rr = typed[r.Intn(len(typed))]
+		}
+		if r.Bool() {
+			l, rr = rr, l
+		}
+		e := fmt.Sprintf("(%s) %s (%s)", l, ops[r.Intn(len(ops))], rr)
+		switch r.Intn(8) {
+		case 0:
+			e = fmt.Sprintf("!(%s)", e)
+		case 1:
+			e = fmt.Sprintf("(%s) ? (%s) : (%s)", e, typed[r.Intn(len(typed))], rr)
+		case 2:
+			e = fmt.Sprintf("[(%s), %s]", e, l)
+		case 3:
+			e = fmt.Sprintf("({k: (%s), [%s]: 1})", e, typed[r.Intn(4)])
+		case 4:
+			e = fmt.Sprintf("`x${%s}`", e)
+		case 5:
+			e = fmt.Sprintf("typeof (%s)", e)
+		}
+		if strings.Contains(e, "undeclaredGlobal2") {
+			e = fmt.Sprintf("typeof undeclaredGlobal2 %s \"undefined\" && undeclaredGlobal2", []string{"!==", "!=", "<"}[r.Intn(3)])
+			if r.Chance(30) {
+				e = "typeof undeclaredGlobal2 === \"undefined\" || undeclaredGlobal2"
+			}
+		}
+		if r.Chance(40) {
+			g.tmp++
+			s.line("var unused%d = (%s);", g.tmp, e)
+		} else {
+			s.line("%s;", e)
+		}
+		if r.Chance(25) {
+			s.line("$(%d, %s);", g.nextProbe(), g.exprTop(1))
+		}
+	}
+	s.line("$(%d, [a, b]);", g.nextProbe())
+	return s.String()
+}
+
+// statement skeletons: small functions built from if/return/throw/loop/switch
+// skeletons over two parameters, each called on a grid of truthy/falsy
+// arguments; no operation in them can throw by accident
+func genSkeleton(seed uint64) string {
+	r := NewRng(seed)
+	s := &sb{}
+	id := 0
+	probe := func() string { id++; return fmt.Sprintf("$(%d, %s)", id, []string{"\"x\"", "1", "0", "\"\"", "null", "true", "-0", "NaN", "\"y\""}[r.Intn(9)]) }
+	val := func() string {
+		switch r.Intn(6) {
+		case 0, 1, 2:
+			return probe()
+		case 3:
+			return []string{"p", "q", "!p", "p && q", "p || q", "p ?? q", "p ? 1 : q ? 1 : 2", "p ? \"a\" : (q, \"a\")", "p ? q ? 1 : 2 : 2", "p ? q || 3 : 3", "p ? 4 : q && 4", "p ? true : false", "p ? false : true", "p ? p : q", "p ? q : p", "p != null ? p : q"}[r.Intn(16)]
+		default:
+			return []string{"1", "\"a\"", "null", "void 0", "false", "0", "\"b\"", "2"}[r.Intn(8)]
+		}
+	}
+	cond := func() string {
+		c := []string{"p", "q", "!p", "!q", "p && q", "!(p || q)", "p == null", "p != null", "p > 1", "!(p > 1)", "p === q", "p !== q", "!p && !q", "typeof p === \"string\"", "p ? q : !q", "!!p"}[r.Intn(16)]
+		if r.Chance(15) {
+			c = fmt.Sprintf("(%s, %s)", probe(), c)
+		}
+		return c
+	}
+	var simple func(d int) string
+	simple = func(d int) string {
+		switch r.Intn(12) {
+		case 0, 1:
+			return fmt.Sprintf("if (%s) return %s;", cond(), val())
+		case 2:
+			return fmt.Sprintf("if (%s) return %s; else return %s;", cond(), val(), val())
+		case 3:
+			return fmt.Sprintf("if (%s) throw %s;", cond(), val())
+		case 4:
+			return fmt.Sprintf("if (%s) { %s; return %s; }", cond(), probe(), val())
+		case 5:
+			return fmt.Sprintf("if (%s) { %s; } else { %s; }", cond(), probe(), probe())
+		case 6:
+			return fmt.Sprintf("if (%s) %s;", cond(), probe())
+		case 7:
+			return probe() + ";"
+		case 8:
+			return fmt.Sprintf("if (%s) return;", cond())
+		case 9:
+			if d > 0 {
+				return fmt.Sprintf("if (%s) { %s } else { %s }", cond(), simple(d-1), simple(d-1))
+			}
+			return fmt.Sprintf("if (%s) { %s; } else return %s;", cond(), probe(), val())
+		case 10:
+			return fmt.Sprintf("if (%s) { if (%s) return %s; } else throw %s;", cond(), cond(), val(), val())
+		default:
+			return fmt.Sprintf("if (%s) { %s; throw %s; }", cond(), probe(), val())
+		}
+	}
+	nf := r.Range(5, 9)
+	for f := 0; f < nf; f++ {
+		s.line("function sk%d(p, q) {", f)
+		s.ind += 2
+		switch r.Intn(6) {
+		case 0:
+			// loop skeleton
+			s.line("for (var i = 0; i < 3; i++) {")
+			s.ind += 2
+			s.line("$t();")
+			s.line("if (%s) %s", cond(), []string{"break;", "continue;", "return " + val() + ";"}[r.Intn(3)])
+			s.line("%s", simple(0))
+			s.line("if (i == 1 && %s) %s", cond(), []string{"break;", "continue;"}[r.Intn(2)])
+			s.line("%s;", probe())
+			s.ind -= 2
+			s.line("}")
+			s.line("return %s;", val())
+		case 1:
+			// switch skeleton
+			s.line("switch (%s) {", []string{"p", "q", "p && q", "typeof p"}[r.Intn(4)])
+			s.ind += 2
+			s.line("case 1: %s; %s", probe(), []string{"break;", "return " + val() + ";", ""}[r.Intn(3)])
+			s.line("case \"a\": %s", simple(0))
+			if r.Bool() {
+				s.line("default: %s; %s", probe(), []string{"break;", "return " + val() + ";", ""}[r.Intn(3)])
+			}
+			s.line("case null: %s", []string{"break;", "return " + val() + ";", "throw " + val() + ";"}[r.Intn(3)])
+			s.ind -= 2
+			s.line("}")
+			s.line("return %s;", val())
+		default:
+			n := r.Range(1, 4)
+			for k := 0; k < n; k++ {
+				s.line("%s", simple(1))
+			}
+			switch r.Intn(4) {
+			case 0:
+				s.line("return %s;", val())
+			case 1:
+				s.line("throw %s;", val())
+			case 2:
+				s.line("return %s ? %s : %s;", cond(), val(), val())
+			}
+		}
+		s.ind -= 2
+		s.line("}")
+	}
+	args := []string{"0, 0", "1, 0", "0, 1", "1, 1", "null, \"a\"", "\"a\", null", "2, 2", "void 0, 1", "\"\", \"\""}
+	for f := 0; f < nf; f++ {
+		for _, a := range args {
+			id++
+			s.line("try { $(%d, sk%d(%s)); } catch (e) { $(%d, [\"thrown\", e]); }", id, f, a, id)
+		}
+	}
+	return "(function() {\n" + s.String() + "})();\n"
 }
 
 // constant-folding tables: many literal-literal operations per program
@@ -641,6 +861,32 @@ func genFoldTable(seed uint64, avoidB bool, viaConst bool) string {
 		if r.Chance(20) {
 			id++
 			s.line("$(%d, `a${%s}b${%s}`);", id, lits2(r), lits2(r))
+		}
+	}
+	// truthiness / negation / nullishness tables over the special values
+	special := []string{"NaN", "0/0", "-0", "0", "\"\"", "0n", "null", "undefined", "void 0", "Infinity", "\"0\"", "1", "-1", "[]", "{}", "1n", "\" \"", "false", "true", "-0/1", "0 * -1", "\"a\""}
+	for i := 0; i < 14; i++ {
+		l := special[r.Intn(len(special))]
+		id++
+		switch r.Intn(9) {
+		case 0:
+			s.line("$(%d, !(%s));", id, l)
+		case 1:
+			s.line("$(%d, !!(%s));", id, l)
+		case 2:
+			s.line("if (%s) $(%d, 1); else $(%d, 0);", l, id, id)
+		case 3:
+			s.line("if (!(%s)) $(%d, 1); else $(%d, 0);", l, id, id)
+		case 4:
+			s.line("$(%d, (%s) ? \"y\" : \"n\");", id, l)
+		case 5:
+			s.line("$(%d, (%s) ?? \"dflt\");", id, l)
+		case 6:
+			s.line("$(%d, (%s) && $(%d, \"rhs\"));", id, l, id)
+		case 7:
+			s.line("$(%d, (%s) || $(%d, \"rhs\"));", id, l, id)
+		default:
+			s.line("$(%d, [typeof (%s), (%s) == null, (%s) === (%s), (%s) == (%s)]);", id, l, l, l, special[r.Intn(len(special))], l, special[r.Intn(len(special))])
 		}
 	}
 	s.ind -= 2
@@ -871,6 +1117,7 @@ type known struct {
 var knownInputs = []known{
 	{"A", "known-A-unused-object-computed-key-uses-string-addition", "var k = sym; ({[k]: 1}); $(1, 1);", "var k = sym; ({[k]: 1}); $(1, 1);", api.LoaderJS, true},
 	{"B", "known-B-pow-special-cases-fold-to-1", "enum E { A = 1 ** (0/0) }\n$(1, E.A);", "$(1, 1 ** (0/0));", api.LoaderTS, false},
+	{"H", "known-H-string-addition-reassociation-reorders-toprimitive", "var ob = $o(900, 1);\n$(1, ob + \"\" + `x${$(2, \"t\")}`);", "var ob = $o(900, 1);\n$(1, ob + \"\" + `x${$(2, \"t\")}`);", api.LoaderJS, false},
 	{"G", "known-G-pow-finite-result-not-within-rounding-error", "enum E { A = 1e300 ** 0.1 }\n$(1, E.A);", "$(1, 1e300 ** 0.1);", api.LoaderTS, false},
 }
 
@@ -906,6 +1153,7 @@ func runGlue(r *Rng, n int, tier string, st *Stats) {
 	}
 	st.Extra["avoid_known_A"] = avoid["A"]
 	st.Extra["avoid_known_B"] = avoid["B"]
+	st.Extra["avoid_known_H"] = avoid["H"]
 
 	nprog := n / 4
 	if nprog < 20 {
@@ -915,6 +1163,10 @@ func runGlue(r *Rng, n int, tier string, st *Stats) {
 	for i := 0; i < nprog; i++ {
 		seed := r.U64()
 		switch {
+		case i%10 == 5:
+			jobs = append(jobs, glueJob{kind: "skeleton", seed: seed, source: genSkeleton(seed), loader: api.LoaderJS})
+		case i%10 == 6:
+			jobs = append(jobs, glueJob{kind: "top-level", seed: seed, source: genTopLevel(seed, avoid["A"], avoid["B"], avoid["H"]), loader: api.LoaderJS})
 		case i%10 == 7:
 			jobs = append(jobs, glueJob{kind: "fold-table", seed: seed, source: genFoldTable(seed, avoid["B"], false), loader: api.LoaderJS})
 		case i%10 == 8:
@@ -924,10 +1176,17 @@ func runGlue(r *Rng, n int, tier string, st *Stats) {
 			jobs = append(jobs, glueJob{kind: "ts-enum", seed: seed, source: ts, base: js, loader: api.LoaderTS})
 		default:
 			o := genOpts{dropLabels: r.Chance(30), names: r.Chance(20)}
-			jobs = append(jobs, glueJob{kind: "program", seed: seed, opts: o, source: genProgram(seed, genOpts{names: o.names}, avoid["A"], avoid["B"]), base: genProgram(seed, o, avoid["A"], avoid["B"]), loader: api.LoaderJS})
+			jobs = append(jobs, glueJob{kind: "program", seed: seed, opts: o, source: genProgram(seed, genOpts{names: o.names}, avoid["A"], avoid["B"], avoid["H"]), base: genProgram(seed, o, avoid["A"], avoid["B"], avoid["H"]), loader: api.LoaderJS})
 		}
 	}
 
+	if d := os.Getenv("C03_DUMP"); d != "" {
+		// debugging aid: write the generated programs
+		os.MkdirAll(d, 0o755)
+		for i, job := range jobs {
+			os.WriteFile(filepath.Join(d, fmt.Sprintf("p%03d-%s.txt", i, job.kind)), []byte(job.source), 0o644)
+		}
+	}
 	var codes []string
 	var variants []variant
 	for pi, job := range jobs {
@@ -944,6 +1203,10 @@ func runGlue(r *Rng, n int, tier string, st *Stats) {
 				force = r.Intn(16)
 				if r.Chance(40) {
 					force &= 7 // bundling is slower: fewer
+				}
+			} else if job.kind == "top-level" {
+				if r.Chance(70) {
+					force = 8 // bundle: tree shaking of top-level statements
 				}
 			} else if r.Chance(20) {
 				force = 8
